@@ -11,7 +11,7 @@ ID = "C05"
 LEVEL = "exploration"
 BUDGET = {"quick": 4800, "thorough": 400000}
 RULE = ("Hypothesis-generated 2D/3D plotfiles (1-3 nested levels, mixed box extents, boxes scattered over 1-4 "
-        "binary files in any on-disk order, coded/random/special-float payloads, non-zero origins, anisotropic "
+        "binary files in any on-disk order, coded/random/special-float payloads (incl. values whose min/max text is 24 characters long), non-zero origins, anisotropic "
         "cells) x ordered variable selection (permuted subsets, unknown names, 'all') x level limit x output path "
         "form; oracle = independent reader + filter/reorder/truncate model, bit-exact, plus taste. "
         "Non-trivial = a field dropped or reordered, or a level dropped, or layout scattered/non-monotone; "
